@@ -8,7 +8,7 @@ RULE = ("batching profile: a target module with LOW, NORMAL and HIGH subscriptio
         "invocations and the events of each must equal the model's (invoke on HIGH, on NORMAL when count >= size, never on LOW; "
         "LOW rides along); one extra invocation at loop stop handing over what is accumulated is tolerated. On all scenarios: no "
         "loss, duplicate or reorder; events accumulated at stop never show up later. non-trivial = scenario with >= 2 handler "
-        "invocations carrying >= 2 events; batch_then_mail_at_quit profile: events accumulated (size / timeout / low priority) and later messages still unread when the loop stops (conservation and order only); distinct = hash of the trace")
+        "invocations carrying >= 2 events; batching_resub_prio profile: the same with re-subscriptions of the three topics under another priority (the priority of a topic is that of its latest accepted subscription); batch_then_mail_at_quit profile: events accumulated (size / timeout / low priority) and later messages still unread when the loop stops (conservation and order only); distinct = hash of the trace")
 ASSUME = ["timeout scenarios are judged for conservation only", "told/broadcast messages count as NORMAL priority", "vf/model_batch.py", "VERIF_SEED"]
 
 
@@ -25,6 +25,12 @@ def run(tier):
             c = cc.Case()
             c.sc, c.profile, c.mode, c.seed = sc, "batching", m, s
             cases.append(c)
+    # the same batching scenarios with re-subscriptions that change only the priority of a topic
+    for i in range(150 if tier == "quick" else 4000):
+        s = seed * 1000003 + 500000 + i
+        c = cc.Case()
+        c.sc, c.profile, c.mode, c.seed = gen.gen_batching(s, resub=True), "batching_resub_prio", ("loop" if i % 2 else "dispatch"), s
+        cases.append(c)
     # accumulated events + unread mail when the loop stops: the final flush keeps arrival order
     for k in range(24 if tier == "quick" else 600):
         s = seed * 1000 + k
